@@ -261,6 +261,13 @@ pub fn roundtrip(seed: u64, n: usize, out: &str) {
             o.emit(&ev(format!("rt/enum/Convention/{}", i), "Convention", "pickle", oc.into(), json!({"i": i}), Some(json!({"i": i})), Some(same)));
         }
     }
+    for i in 0..3u8 {
+        if let Ok(a) = dpy::adorder_new(i) {
+            let res = guard(|| dpy::adorder_pickle(&a));
+            let (oc, same) = match res { Outcome::Ok(Ok((_, back))) => ("ok", back == a), Outcome::Ok(Err(_)) => ("load_err", false), Outcome::Panic(_) => ("load_panic", false) };
+            o.emit(&ev(format!("rt/enum/ADOrder/{}", i), "ADOrder", "pickle", oc.into(), json!({"i": i}), Some(json!({"i": i})), Some(same)));
+        }
+    }
     for i in 0..5u8 {
         if let Ok(m) = cpy::modifier_new(i) {
             let res = guard(|| cpy::modifier_pickle(&m));
@@ -372,7 +379,7 @@ pub fn roundtrip(seed: u64, n: usize, out: &str) {
             let (oc, after, same) = match res { Outcome::Ok(Ok((_, back, e))) => ("ok", Some(pq(&back)), e), Outcome::Ok(Err(_)) => ("load_err", None, false), Outcome::Panic(_) => ("load_panic", None, false) };
             o.emit(&ev(format!("{}/FXRate/pickle", key), "FXRate", "pickle", oc.into(), pq(&q), after, Some(same)));
             let c = rand_curve(&mut r, i);
-            pickle_ev(&mut o, &key, "Curve", &c, p_curve, |x| x.renew(), |x, on| { *on = CurveH::setstate(&x.getstate())?; Ok(()) }, |a, b| a.equals(b));
+            pickle_ev(&mut o, &key, "Curve", &c, p_curve, |x| x.renew(), |x, on| x.py_state_onto(on), |a, b| a.equals(b));
             if i % 3 == 0 {
                 let cal = rand_cal(&mut r);
                 pickle_ev(&mut o, &key, "Cal", &cal, p_cal, cpy::cal_renew, |x, on| cpy::cal_state(x, on), |a, b| a == b);
